@@ -27,7 +27,8 @@
 
    The wrapped streams: the compressed input is a byte list with a schedule [ws] of window sizes
    (call k of the wrapped get_buffered_data exposes max 1 ws[k] bytes; an empty window is EOF, as the
-   sqfs_istream_t contract says); the consumer is an arbitrary list of (want, take) requests. *)
+   sqfs_istream_t contract says); the consumer is an arbitrary list of (want, take) requests (any want,
+   0 included since the F24 repair). *)
 From Coq Require Import List NArith Bool Arith.
 From SqfsV Require Import C15.XfrmModel C15.XfrmSpec C15.XfrmBase C15.XfrmDrvZlib C15.XfrmDrvBzip2
   C15.XfrmDrvZstd C15.XfrmIStreamProofs C15.XfrmOStreamProofs C15.ToyCodec C15.ToyFormat
@@ -40,7 +41,7 @@ Import ListNotations.
 
 (* For every format, every driver meeting the decoder-driver contract, every buffer size, every
    sequence of complete members Z (decode_all Z = P), EVERY chunking ws of the compressed bytes and
-   EVERY sequence of consumer requests (want >= 1): no error, no fuel exhaustion (the loop of precache
+   EVERY sequence of consumer requests: no error, no fuel exhaustion (the loop of precache
    terminates), the bytes delivered are a prefix of P, EOF is reported only after the last byte of
    P, and a consumer that takes at least one byte per request reaches EOF within |P|+1 requests. *)
 Theorem istream_xfrm_transparent :
@@ -49,7 +50,7 @@ Theorem istream_xfrm_transparent :
   ddrv_contract Member D drv DR ->
   forall bufsz, 0 < bufsz -> forall d0, DR d0 [] [] ->
   forall Z P ws ops acc e s',
-  Stream Member Z P -> wants_ok ops ->
+  Stream Member Z P ->
   reader drv bufsz (istream_init d0 Z ws) ops [] = (acc, e, s') ->
   prefix acc P /\ e <> RErr /\ e <> RFuel /\ (e = REof -> acc = P) /\
   (takes_ok ops -> length P < length ops -> e = REof /\ acc = P).
@@ -65,7 +66,7 @@ Theorem istream_eof_sound :
   ddrv_contract Member D drv DR ->
   forall bufsz, 0 < bufsz -> forall d0, DR d0 [] [] ->
   forall Z ws ops acc e s',
-  wants_ok ops -> reader drv bufsz (istream_init d0 Z ws) ops [] = (acc, e, s') ->
+  reader drv bufsz (istream_init d0 Z ws) ops [] = (acc, e, s') ->
   e <> RFuel /\ (e = REof -> Stream Member Z acc).
 Proof. exact istream_eof_sound_l. Qed.
 Print Assumptions istream_eof_sound.
@@ -81,7 +82,7 @@ Theorem truncated_is_error :
   ddrv_contract Member D drv DR ->
   forall bufsz, 0 < bufsz -> forall d0, DR d0 [] [] ->
   forall zs ps x y p ws ops acc e s',
-  Stream Member zs ps -> Member (x ++ y) p -> x <> [] -> y <> [] -> wants_ok ops ->
+  Stream Member zs ps -> Member (x ++ y) p -> x <> [] -> y <> [] ->
   reader drv bufsz (istream_init d0 (zs ++ x) ws) ops [] = (acc, e, s') ->
   e <> REof /\ e <> RFuel /\ prefix acc (ps ++ p) /\
   (takes_ok ops -> length (ps ++ p) < length ops -> e = RErr).
@@ -96,7 +97,7 @@ Theorem not_a_stream_never_eof :
   ddrv_contract Member D drv DR ->
   forall bufsz, 0 < bufsz -> forall d0, DR d0 [] [] ->
   forall Z ws ops acc e s',
-  (forall P, ~ Stream Member Z P) -> wants_ok ops ->
+  (forall P, ~ Stream Member Z P) ->
   reader drv bufsz (istream_init d0 Z ws) ops [] = (acc, e, s') -> e <> REof /\ e <> RFuel.
 Proof. exact not_stream_no_eof_l. Qed.
 Print Assumptions not_a_stream_never_eof.
@@ -194,7 +195,7 @@ Theorem gzip_xz_istream_transparent :
   dec_contract Member S C Rep true -> ok_progresses S C Rep -> mid_ok S C Rep ->
   forall bufsz, 0 < bufsz -> forall st0, Rep st0 [] [] ->
   forall Z P ws ops acc e s',
-  Stream Member Z P -> wants_ok ops ->
+  Stream Member Z P ->
   reader (mk_zlib C true) bufsz (istream_init st0 Z ws) ops [] = (acc, e, s') ->
   prefix acc P /\ e <> RErr /\ e <> RFuel /\ (e = REof -> acc = P) /\
   (takes_ok ops -> length P < length ops -> e = REof /\ acc = P).
@@ -207,7 +208,7 @@ Theorem gzip_xz_truncated_is_error :
   dec_contract Member S C Rep true -> ok_progresses S C Rep -> mid_ok S C Rep ->
   forall bufsz, 0 < bufsz -> forall st0, Rep st0 [] [] ->
   forall zs ps x y p ws ops acc e s',
-  Stream Member zs ps -> Member (x ++ y) p -> x <> [] -> y <> [] -> wants_ok ops ->
+  Stream Member zs ps -> Member (x ++ y) p -> x <> [] -> y <> [] ->
   reader (mk_zlib C true) bufsz (istream_init st0 (zs ++ x) ws) ops [] = (acc, e, s') ->
   e <> REof /\ e <> RFuel /\ prefix acc (ps ++ p) /\
   (takes_ok ops -> length (ps ++ p) < length ops -> e = RErr).
@@ -397,13 +398,13 @@ Example truncated_now_error :
 Proof. vm_compute. reflexivity. Qed.
 
 (* ================================================================== *)
-(* a quirk outside the property: want = 0                               *)
+(* want = 0 (F24, repaired)                                             *)
 (* ================================================================== *)
-(* xfrm_get_buffered_data(want = 0) on a buffer that has been consumed entirely does not refill and
-   reports EOF although input is left (the file istream guards the same test with its eof flag).
-   No caller in the tree passes want = 0 to an xfrm stream (istream_get_line does, on plain files
-   only); all theorems above assume want >= 1 ([wants_ok]). *)
-Example want_zero_spurious_eof :
-  fst (reader toy_gzip_dec 4 (istream_init (toy_dec_init 0 0 false) ex_z []) [(4%nat, 4%nat); (0%nat, 1%nat)] [])
-  = (firstn 4 ex_p, REof).
+(* Before the F24 repair xfrm_get_buffered_data tested `buffer_used == 0 || avail < want`: a request with
+   want = 0 on a buffer that had been consumed entirely did not refill and reported EOF with input left
+   (the theorems then needed want >= 1).  With `buffer_used == buffer_offset || avail < want` the same
+   requests get everything: *)
+Example want_zero_refills :
+  fst (reader toy_gzip_dec 4 (istream_init (toy_dec_init 0 0 false) ex_z [])
+              ((4%nat, 4%nat) :: repeat (0%nat, 4%nat) 5) []) = (ex_p, REof).
 Proof. vm_compute. reflexivity. Qed.
